@@ -48,7 +48,18 @@ def make_workload(seed, i):
     kind = rng.weighted([("plain", 3), ("versions", 4), ("invalid", 2)])
     desc = {"i": i, "kind": kind, "pkg_seed": pkg.render_seed}
     if kind in ("versions", "invalid") and rng.chance(0.8 if kind == "versions" else 0.4):
+        if rng.chance(0.5):
+            # give the oldest version extra protocols that the newest no longer has: every removed protocol
+            # yields a warning, and they are all attached to the same location
+            r2 = rng.fork("extra")
+            fn = sorted(pkg.files)[0]
+            for k in range(r2.randint(2, 5)):
+                pkg.files[fn].append(M.Protocol("Gone%s%d" % (r2.choice(M.WORDS).capitalize(), k), [("s0", M.Prim(r2.choice(["int32", "string", "float64"])), r2.chance(0.5))]))
+            desc["removed_protocols"] = True
         pkg = E.with_versions(pkg, rng.fork("v"), rng.randint(1, 3), partial=rng.chance(0.7))
+        if desc.get("removed_protocols"):
+            for fn2 in pkg.files:
+                pkg.files[fn2] = [d for d in pkg.files[fn2] if not (isinstance(d, M.Protocol) and d.name.startswith("Gone"))]
         desc["versions"] = len(pkg.versions)
     files = M.render_tree(pkg, "/w")
     if kind == "invalid":
